@@ -57,7 +57,7 @@ theorem updateGaps_exc (n t n' o' : Int) (m : Bool) (ht : n ≤ t) (hn' : n' = m
     · have hnt : t = n := by omega
       have hon : o' = n := by omega
       subst hnt
-      simp only [ugJump, ugCreated, hj, and_false, if_false, Bool.false_eq_true, List.length_cons,
+      simp only [ugJump, ugCreated_iff, hj, and_false, if_false, Bool.false_eq_true, List.length_cons,
         List.length_nil, not_false_eq_true, true_and, false_and]
       have h1 : ¬ (t > t + 1) := by omega
       simp only [h1, if_false, hon]
@@ -108,7 +108,7 @@ theorem updateSlot_some {α : Type} (s : State α) (t : Int) (v : Option α) (n 
                 gaps := updateGaps s.cap s.gaps t n (max n t) (max n t - ((s.cap : Int) - 1)) v.isNone
                 newest := some (max n t) }, false) := by
   unfold updateSlot
-  simp only [hn, updReject, Option.isNone_some, and_true, oldestOf_eq, updNewest]
+  simp only [hn, updReject_iff, Option.isNone_some, and_true, oldestOf_eq, updNewest]
 
 /-- `updateSlot` on the fresh buffer (`_TIMESTAMP_MIN` represented by `t - cap`). -/
 theorem updateSlot_none {α : Type} (s : State α) (t : Int) (v : Option α) (hn : s.newest = none) :
@@ -118,7 +118,7 @@ theorem updateSlot_none {α : Type} (s : State α) (t : Int) (v : Option α) (hn
           gaps := updateGaps s.cap s.gaps t (t - s.cap) (max (t - s.cap) t) (max (t - s.cap) t - ((s.cap : Int) - 1)) v.isNone
           newest := some (max (t - s.cap) t) }, false) := by
   unfold updateSlot
-  simp only [hn, updReject, Option.isNone_none, oldestOf_eq, updNewest]
+  simp only [hn, updReject_iff, Option.isNone_none, oldestOf_eq, updNewest]
   simp
 
 /-- Was the sample rejected?  Exactly when it is older than the window. -/
